@@ -141,10 +141,10 @@ def condition_rules(chk, P):
     b = P.body(CHECKS[0])
     if b is not None:
         pt = tab.predicate_table(P, b)
-        S, V = "variant(Iterator::next(&[T]::into_iter(signals)))", "variant(Iterator::next(IntoIterator::into_iter(self.virtual_signals)))"
+        S, V = "variant(Iterator::next([T]::iter(signals)))", "variant(Iterator::next([T]::iter(self.virtual_signals)))"
         want_pt = {(frozenset([(S, ("None",)), (V, ("None",))]), "Ok"),
-                   (frozenset([(S, ("Some",)), ("HashSet::insert(HashSet::new(), some!(Iterator::next(&[T]::into_iter(signals))).name)", False)]), "Err"),
-                   (frozenset([(S, ("None",)), (V, ("Some",)), ("HashSet::contains(HashSet::new(), some!(Iterator::next(IntoIterator::into_iter(self.virtual_signals))).0.name)", True)]), "Err")}
+                   (frozenset([(S, ("Some",)), ("HashSet::insert(HashSet::new(), some!(Iterator::next([T]::iter(signals))).name)", False)]), "Err"),
+                   (frozenset([(S, ("None",)), (V, ("Some",)), ("HashSet::contains(HashSet::new(), some!(Iterator::next([T]::iter(self.virtual_signals))).0.name)", True)]), "Err")}
         chk.require(pt == want_pt, "TAB", "TAB:check_duplicate_signals:exact-outcome", "Err iff a signal name repeats or a virtual signal's name is among the signal names; Ok only after both scans ended", "check_duplicate_signals decides %s" % sorted(pt, key=str))
     # exact per-item behaviour of the two draining loops: which decisions lead to Err / continue, nothing else
     for fn, field, dec, tag in ((CHECKS[3], "expected_inputs", ("Iterator::any([T]::iter(signals), closure({closure#0}))", True), "expected-inputs"),
